@@ -37,6 +37,39 @@ def run_program(lines):
 INTS = [-7, -2, -1, 0, 1, 2, 3, 7]
 
 
+def _deep_contains(arr, x):
+    return any(e == x or (isinstance(e, list) and _deep_contains(e, x)) for e in arr)
+
+
+def array_method_cases():
+    """array methods on NESTED arrays: contains() (an element that is itself an array compared as a whole; only the cases in which the
+    shallow and the descending reading of the manual agree), `in`, get(), length(), indexing"""
+    recv = [[[1, 2], 3], [['a', 'b'], ['c', 'd']], [[]], [1, [2, [3]]], [[1], [1, 2]], [[], 0], [['x']], [[[1]]], [1, 2]]
+    args = [[1, 2], ['c', 'd'], [], [3], [1], ['x'], [[1]], 1, 3, 'x', [2, [3]], [2, 1]]
+    out = []
+    for r in recv:
+        for a in args:
+            if any(type(x) is not type(a) and not isinstance(x, list) and not isinstance(a, list) for x in _flat(r)):
+                continue          # (comparing an int with a str is an error in newer versions: not part of this table)
+            shallow, deep = a in r, _deep_contains(r, a)
+            if shallow == deep:
+                out.append((f'{fmt_item(r)}.contains({fmt_item(a)})', deep))
+            out.append((f'{fmt_item(a)} in {fmt_item(r)}', shallow))
+            out.append((f'{fmt_item(a)} not in {fmt_item(r)}', not shallow))
+        out.append((f'{fmt_item(r)}.length()', len(r)))
+        out.append((f'{fmt_item(r)}.get(0)', r[0]))
+        out.append((f'{fmt_item(r)}[-1]', r[-1]))
+    return out
+
+
+def _flat(v):
+    for x in v:
+        if isinstance(x, list):
+            yield from _flat(x)
+        else:
+            yield x
+
+
 def gen_exprs(rnd, n):
     """(meson text, python value) pairs over ints / bools / arrays"""
     out = []
@@ -64,6 +97,7 @@ def gen_exprs(rnd, n):
             ("true.to_string('', 'no')", ''), ("false.to_string('yes', '')", ''), ("false.to_string('yes', 'no')", 'no'), ("true.to_string()", 'true'), ("false.to_string()", 'false'),
             ("'a b'.split()", ['a', 'b']), ("'a,b'.split(',')", ['a', 'b']), ("''.join(['a', 'b'])", 'ab'), ("'abc'.replace('b', '')", 'ac'), ("{'k': 0}.get('k', 5)", 0), ("{'k': ''}.get('k', 'd')", ''),
             ("'0'.to_int()", 0), ("0.to_string()", '0'), ("0.is_even()", True), ("'abc'.startswith('')", True), ("'abc'.contains('')", True), ("[0, 1].contains(0)", True), ("[''].contains('')", True),
+            *array_method_cases(),
             ("'a\\nb'.split('\\n').length()", 2), ("'''a\\nb'''.split('\\n').length()", 1), ("'x' == 'x'", True), ('[1, 2] == [1, 2]', True)]
     return out
 
